@@ -122,4 +122,38 @@ PROPS = {
         trusted_base=COMMON_TRUST,
         assumptions=["values carry valid JSON numbers (enforced by NumberBuf::new; new_unchecked is unsafe)"],
     ),
+
+    "C06": dict(
+        tables=[],
+        determined=True,
+        technique="Lean 4: index invariant (bucket = exact ascending positions of its key) proved inductively for new/push/extend/from_vec/sort/value mutation, all key queries proved equal to the linear scan under the invariant; exhaustive operation histories with entries, results, every key query and the hash-index bucket dump (hook) compared after every operation",
+        level_text=("PARTIAL proof. Model: entries list + hash-index buckets (with a ghost key per bucket standing for the hash chain) and every Object operation written from index_map.rs / object/mod.rs, incl. the three removal iterators with 'consumed n then dropped'. "
+                    "Proved in Lean: the invariant Inv (bucket keys distinct; every bucket lists exactly the ascending positions of its key, representative first; every present key has a bucket) holds for the empty object and is preserved by "
+                    "push/push_entry, extend/from_iter, from_vec, sort (index rebuilt) and in-place value mutation, each with the refinement 'entries = the plain-list operation' and the result flag; under Inv every key-based query "
+                    "(contains_key, index_of, redundant_index_of, indexes_of, get/get_entries) equals the linear scan of the entries and never panics. "
+                    "Not yet proved (stated as C06_remaining_full): push_front, remove_at and the iterators built on it (remove, insert, insert_front, remove_unique). These are covered by correspondence: "
+                    "every history of length <= 3 (thorough 4) over 26 operations on 2 keys x 2 values, all length-2 (3) extensions of three duplicate-rich prefixes over 3 keys, and 60 (400) random histories of 300-1500 operations over 40-200 keys "
+                    "(several growth/rehash cycles), comparing after EVERY operation the result, the entries, every key query for every key of the universe and the bucket dump (cfg(json_syntax_verif) hook) with the model, plus a plain-Vec oracle."),
+        level_note="Trusted: Lean kernel; hashbrown RawTable + ahash behave as a hash table for a deterministic hash of the key (ghost key abstraction); Rust's stable sort_by = List.mergeSort; model validated by correspondence incl. bucket dumps.",
+        rule="request = one operation history; after every op: result, entries, key queries over the history's key universe, sorted bucket dump. Non-trivial = history creates duplicate keys or has > 2 ops; distinct request lines",
+        strength="partial: invariant + refinement proved for append-side ops and all queries; removal/front ops tested exhaustively on short histories",
+        trusted_base=COMMON_TRUST + ["hashbrown::raw::RawTable, ahash (hash table semantics)", "plain-Vec reference semantics in harness/src/obj.rs"],
+        assumptions=["remove_unique on a duplicated key returns Err(Duplicate) AND removes all entries with that key (the iterator's Drop completes the removal); the documentation is silent, the list semantics follows `remove`"],
+        timeout=3600,
+    ),
+    "C14": dict(
+        tables=[],
+        determined=True,
+        technique="Lean 4 theorems by mutual structural induction: the derived lexicographic order on values is reflexive, antisymmetric (swap law), transitive, Equal iff equal; Object eq/cmp/hash read entries only; differential execution of ==, cmp, partial_cmp on pairs/triples with near-copies and on history pairs with a fixed-key hasher",
+        level_text=("FULL proof on the model. For the model of the derived Ord on Value/Entry/Object (variant rank, false<true, numbers and strings by bytes, arrays/objects lexicographic with proper prefix first, entries by key then value): "
+                    "C14_refl, C14_eq_iff (Equal exactly when equal), C14_antisymm (cmp b a = swap (cmp a b): exactly one of <,=,> holds), C14_trans and C14_le_trans, for ALL pairs and triples of arbitrarily nested values; "
+                    "C14_content: eq/cmp/hash input of objects are functions of the entry list alone (independent of the index buckets, hence of the history). "
+                    "Tie to the code: ==, cmp, partial_cmp compared with the model on all pairs/triples of a 25-value pool and on generated values with near-copies (one leaf, key or position changed); on the real code hash equality of equal values, "
+                    "clones, and objects with equal entries reached through different operation histories (500+ random history pairs) under a fixed-key hasher."),
+        level_note="Trusted: Lean kernel; #[derive(PartialOrd, Ord, Hash, PartialEq)] expand to the lexicographic definitions the model writes; smallstr/NumberBuf compare as their bytes (UTF-8 byte order = code point order); validated by correspondence.",
+        rule="request = pair / triple of values or a pair of operation histories; reply = eq flag and comparison results. Non-trivial = the values differ (pairs), all triples, history pairs with equal entries; distinct request lines",
+        strength="full on the model; hashing is content-only by construction of the model and checked on the real code",
+        trusted_base=COMMON_TRUST + ["derive macros of std"],
+        assumptions=[],
+    ),
 }
